@@ -207,6 +207,13 @@ class SymbolicExpression(Generic[T], ABC):
     def _add_conclusion_(self, conclusion: Conclusion):
         self._conclusion_.add(conclusion)
 
+    def _reset_evaluation_state_(self):
+        """
+        Reset the state that this node accumulates during one evaluation of the query and that must not be carried
+        into the next evaluation.
+        """
+        ...
+
     @lru_cache(maxsize=None)
     def _projection_(self, when_true: Optional[bool] = True) -> HashedIterable[int]:
         """
@@ -499,6 +506,8 @@ class ResultQuantifier(CanBehaveLikeAVariable[T], ABC):
         This is the exposed evaluation method for users.
         """
         SymbolGraph().remove_dead_instances()
+        for node in self._all_nodes_:
+            node._reset_evaluation_state_()
         yield from map(self._process_result_, self._evaluate__())
 
     def _evaluate__(
